@@ -48,13 +48,12 @@ def get (l : Labels) (pc : Nat) : Option Nat :=
 /-- `try_get` -/
 def tryGet (l : Labels) (pc : Nat) : Outcome Nat := ofOption (l.get pc)
 
-/-- `get_or_add_unchecked`: `max_id += 1` overflows `u16` when the 65536th key is inserted -/
+/-- `get_or_add_unchecked`: the counter `max_id` is a `u32`, ids are `max_id as u16` (there are at most 65536 distinct
+`u16` keys, so the counter reaches at most 65536 and an id never truncates) -/
 def addUnchecked (l : Labels) (pc : Nat) : Outcome (Nat × Labels) :=
   match l.get pc with
   | some id => ok (id, l)
-  | none =>
-    if l.count = 65535 then crash .labelsMaxId
-    else ok (l.count, { l with tbl := l.tbl.setIfInBounds pc (some l.count), count := l.count + 1 })
+  | none => ok (l.count % 65536, { l with tbl := l.tbl.setIfInBounds pc (some (l.count % 65536)), count := l.count + 1 })
 
 /-- `create` -/
 def create (l : Labels) (pc : Nat) : Outcome Labels :=
@@ -68,10 +67,10 @@ def getOrCreate (l : Labels) (pc : Nat) : Outcome (Nat × Labels) :=
 def getOrCreateExcl (l : Labels) (pc : Nat) : Outcome (Nat × Labels) :=
   if pc > l.codeLength then err else l.addUnchecked pc
 
-/-- `get_or_create_range`: the start label is created first, then `start_pc + length` is computed in `u16` -/
+/-- `get_or_create_range`: the start label is created first, then `start_pc.checked_add(length)` (past 65535: error) -/
 def getOrCreateRange (l : Labels) (start len : Nat) : Outcome ((Nat × Nat) × Labels) := do
   let (a, l) ← l.getOrCreate start
-  if start + len > 65535 then crash .labelsRangeAdd
+  if start + len > 65535 then err
   else do
     let (b, l) ← l.getOrCreateExcl (start + len)
     pure ((a, b), l)
@@ -568,13 +567,14 @@ def readFrame (p : Pool) (l : Labels) (s : Bytes) : Outcome ((Nat × Frame) × L
     let (stack, l, s) ← readVTypes16 p l s
     pure ((d, .full locals stack), l, s)
 
-/-- the frame loop of `StackMapTable`; `first` = "`i == 0`", `offset` the running `u16` sum -/
+/-- the frame loop of `StackMapTable`; `first` = "`i == 0`", `offset` the running `u16` sum (`checked_add` twice: a sum
+past 65535 is an error) -/
 def readFrames (p : Pool) : Nat → Bool → Nat → Labels → Bytes → Outcome (List (Nat × Frame) × Labels × Bytes)
   | 0, _, _, l, s => ok ([], l, s)
   | n + 1, first, offset, l, s => do
     let ((delta, f), l, s) ← readFrame p l s
     let inc := if first then delta else delta + 1
-    if inc > 65535 || offset + inc > 65535 then crash .frameOffsetAdd
+    if offset + inc > 65535 then err
     else do
       let offset := offset + inc
       let (id, l) ← l.getOrCreate offset
